@@ -60,6 +60,8 @@ type World struct {
 	OnHTTP func(addr string)
 	// OnRead: the same for a backend's ReadAt (called once, then cleared, before the answer is given)
 	OnRead func(addr string)
+	// OnClose: the same for a backend's Close (the controller closes a backend under its lock)
+	OnClose func(addr string)
 }
 
 func NewWorld() *World {
@@ -176,6 +178,13 @@ func (b *Backend) ReadAt(p []byte, off int64) (int, error) {
 	return len(p), nil
 }
 func (b *Backend) Close() error {
+	b.w.mu.Lock()
+	hook := b.w.OnClose
+	b.w.OnClose = nil
+	b.w.mu.Unlock()
+	if hook != nil {
+		hook(b.Addr)
+	}
 	b.note("Close")
 	b.w.mu.Lock()
 	b.w.Closed = append(b.w.Closed, b.Addr)
